@@ -94,5 +94,5 @@ BUILTIN_NAMES = {"len", "range", "isinstance", "enumerate", "zip", "min",
 
 CONTAINER_METHODS = {"append", "pop", "insert", "extend", "remove", "index",
                      "reverse", "clear", "copy", "add", "discard", "keys",
-                     "values", "items", "get", "update", "count", "sort", "union",
+                     "values", "items", "get", "update", "count", "sort", "union", "issubset",
                      "__setitem__", "__delitem__", "__getitem__", "__len__"}
